@@ -7,6 +7,9 @@ LEGS = [{"driver": "c14", "runner": ("ser", "Extract/ExtractSer.v", "Ser_model")
 # Props/SM2Premises.v (primality of the SM2 p and n by Pocklington certificates, SM2Facts from associativity alone, and the
 # corollaries for C01/C02/C03/C09/C13/C14) is built and re-checked by this check
 COQ_EXTRA_TARGETS = ["Props/SM2Premises.vo"]
+# every Gen file in the Coq closure of Props/C14.v and Props/SM2Premises.v is regenerated from the tree on every run, so the
+# proofs are never checked against tables left by a run on another tree
+GEN = ["sm2", "sm2sig", "sm2limbs", "x509tables"]
 COQ_TIMEOUT = 5400
 
 TECHNIQUE = ("Coq proofs of the round trip of every codec gmsm owns over function-by-function models (all values), tied to /repo by running the "
@@ -46,7 +49,7 @@ RULE = ("seeded generator (VERIF_SEED): d with 1..3 leading zero bytes, odd hex-
         "root, bad tags, bad lengths, x >= p, random x (half non-residues); (r, s) classes zero, 0x7f..0x81, top bit set, short, n-1, n-2, 33..260 bytes; "
         "ciphertexts with short and zero coordinates and payload lengths 0..300, crafted DER (33-byte, negative, wrong hash length, trailing bytes); PKCS#8 "
         "with crafted private-key octets (short, over-long with zeros, >= n); passwords {empty, 1 char, ASCII, UTF-8, 1 KiB, binary, trailing space} x 9 "
-        "wrong variants (one character, case, length, nil), each against the PEM reader and the DER parsers ParsePKCS8PrivateKey / ParsePKCS8EcryptedPrivateKey; ParseSm2PrivateKey called directly (bare and full inner structure); genuine ciphertexts (Encrypt / EncryptAsn1 on one nonce stream, message lengths 1..1000) through CipherMarshal / CipherUnmarshal / DecryptAsn1 and against the model; key files of foreign encoders (hand-built ECPrivateKey / PKCS#8 / PEM / PBES2-encrypted PKCS#8 with the scalar in 30..34 octets, top bit set and clear, with and without public key and curve OID, through every reader and the two single-pair TLS loaders; python recomputes [d]G); every loader (in-memory and file-based on the same pairs) x all certificate/key material pairs (3 SM2 file pairs, 3 fresh SM2 pairs incl. "
+        "wrong variants (one character, case, length, nil), each against the PEM reader and the DER parsers ParsePKCS8PrivateKey / ParsePKCS8EcryptedPrivateKey; ParseSm2PrivateKey called directly (bare and full inner structure); genuine ciphertexts (Encrypt / EncryptAsn1 on one nonce stream, message lengths 1..1000) through CipherMarshal / CipherUnmarshal / DecryptAsn1 and against the model; key files of foreign encoders (hand-built ECPrivateKey / PKCS#8 / PEM / PBES2-encrypted PKCS#8 with the scalar in 30..34 octets, top bit set and clear, with and without public key and curve OID, through every reader and the two single-pair TLS loaders; python recomputes [d]G; and key files whose optional publicKey field holds a FOREIGN point [e]G, e != d: through every reader (result (d, [d]G)), X509KeyPair / GMX509KeyPairsSingle / GMX509KeyPairs with certificates of [d]G (accepted) and with the certificate of the embedded point [e]G in the single loaders and in the signing and the encryption slot of the dual loader (refused)); every loader (in-memory and file-based on the same pairs) x all certificate/key material pairs (3 SM2 file pairs, 3 fresh SM2 pairs incl. "
         "leading-zero coordinates, 2 RSA, 1 ECDSA P-256, garbage, and for three SM2 certificates the key n-d: same X, other Y; the near-miss combinations of the dual loader are always included); composed PEM files for each loader (chain after / before the leaf, skipped blocks, PKCS#8 SM2 under 'EC PRIVATE KEY', SEC 1, encrypted, Ed25519, several key blocks, swapped inputs, empty). Non-trivial: input not empty; distinct = distinct case text")
 
 P = 0xFFFFFFFEFFFFFFFFFFFFFFFFFFFFFFFFFFFFFFFF00000000FFFFFFFFFFFFFFFF
@@ -73,6 +76,11 @@ def same(f, io, mo):
     if f[0] == "P8":          # the model does not compute [d]G: compare DER and D
         return io[:4] == mo[:4]
     if f[0] == "FK":          # model: D, and the scalar it hands to the base-point multiplication (must be D itself)
+        if f[4].endswith("-e"):
+            # certificate of the foreign point the file embeds: the model reads the file as (d, [d]G) (pkcs8_plain_roundtrip,
+            # whatever the publicKey field holds) and its loaders refuse, [d]G not being the certificate's point
+            # (loader_decides_on_the_scalar); the implementation has to refuse
+            return mo[0] == "ok" and mo[1] == mo[2] and io[0] == "err" and io[1].startswith("refused:")
         return io[:2] == mo[:2] and (mo[0] != "ok" or mo[1] == mo[2])
     return io == mo
 
@@ -222,9 +230,27 @@ def predicate(f, io):
         return True, ""
     if op == "FK":
         d = int(f[2], 16)
-        where = "%s, scalar in %s octets%s%s" % (f[4], f[3], ", public key present" if f[5] == "1" else "", ", curve OID present" if f[6] == "1" else "")
+        where = "%s, scalar in %s octets%s%s" % (f[4], f[3], {"1": ", public key present", "2": ", publicKey field holds a foreign point"}.get(f[5], ""),
+                                                 ", curve OID present" if f[6] == "1" else "")
         if int.from_bytes(_unhex(f[7]), "big") != d or len(_unhex(f[7])) != int(f[3]):
             return False, "BADCASE: scalar octets do not encode the scalar"
+        if f[5] == "2":
+            # the optional publicKey field carries [e]G for a foreign scalar e: the key of the file is still d
+            if len(f) < 9 or not 0 < int(f[8], 16) < N or _ec_mul(int(f[8], 16)) == _ec_mul(d):
+                return False, "BADCASE: no foreign scalar"
+        if f[4].endswith("-e"):
+            if f[5] != "2":
+                return False, "BADCASE: no foreign point"
+            loader = {"x509kp-e": "X509KeyPair", "gmsingle-e": "GMX509KeyPairsSingle", "gmpairs-s-e": "GMX509KeyPairs (signing key)",
+                      "gmpairs-e-e": "GMX509KeyPairs (encryption key)"}.get(f[4], f[4])
+            if io[0] == "ok":
+                fp = _ec_mul(int(f[8], 16))
+                return False, ("%s accepted a key that does not match the certificate: key file with scalar d (in %s octets) whose publicKey field "
+                               "holds the certificate's point [e]G, d != e; the accepted key reads as D=%s X=%s (certificate X=%x, [d]G X=%x)"
+                               % (loader, f[3], io[1][:16], io[2][:16], fp[0], _ec_mul(d)[0]))
+            if not (io[0] == "err" and len(io) > 1 and io[1].startswith("refused:")):
+                return False, "%s: unexpected outcome %s" % (loader, " ".join(io)[:120])
+            return True, ""
         if io[0] != "ok" or len(io) < 7:
             return False, "a valid SM2 key file of another encoder was not loaded (%s): %s" % (where, " ".join(io)[:120])
         pt = _ec_mul(d)
